@@ -122,6 +122,50 @@ MUTANTS = [
     ("c12-ordinal-infinite", "core/src/timeline.rs", "Repeat::Infinite => u32::MAX,", "Repeat::Infinite => 0,", ["C12"], "repeat-order-wrong"),
     ("c03-raw-time-quot", "core/src/time_scale.rs", "let (quot, rem) = (time / self.duration, time % self.duration);",
      "let (quot, rem) = ((time + self.delay) / self.duration, time % self.duration);", ["C03"], "raw-time-used"),
+    # deletion mutants: a whole test / step removed (each compiles and keeps the pinned suite green)
+    ("del-same-state-return", "core/src/animator.rs", "        if state == &self.current_state {\n            return;\n        }\n", "",
+     ["C04", "C05"], "same-state"),
+    ("del-pause-record", "core/src/animator.rs",
+     "                if was_animating && !will_animate {\n                    self.paused_animation = Some((self.current_state.clone(), self.state_duration));\n                } else if will_animate {",
+     "                if will_animate {", ["C04", "C05"], "interruption-not-decided"),
+    ("del-blend", "core/src/animator.rs", "                self.blend_next_timeline(state);\n", "", ["C04", "C05"], "blend-missing-or-wrong"),
+    ("del-final-update", "core/src/animator.rs", "        self.current_state = state.clone();\n        self.update_current_values();",
+     "        self.current_state = state.clone();", ["C04", "C05"], "final-update-missing-or-wrong"),
+    ("del-time-reset", "core/src/animator.rs", "                self.state_duration = Duration::ZERO;\n", "", ["C04", "C05"], "restart-time-not-zero"),
+    ("del-advance-update", "core/src/animator.rs",
+     "        self.state_duration = self.state_duration.saturating_add(elapsed);\n        self.update_current_values();",
+     "        self.state_duration = self.state_duration.saturating_add(elapsed);", ["C06", "C05"], None),
+    ("del-enabled-check", "bevy/src/animator.rs", "        if !animator.enabled {\n            continue;\n        }\n", "", ["C18"],
+     "enabled-not-checked"),
+    ("del-same-key-check", "bevy/src/selection.rs",
+     "        if selector\n            .previous_key\n            .as_ref()\n            .is_some_and(|k| k == &selector.timeline_key)\n        {\n            continue;\n        }\n",
+     "", ["C19"], "same-key-not-excluded"),
+    ("del-empty-return", "core/src/timeline_helpers.rs", "        if !has_frame_data {\n            return Self::empty();\n        }\n", "",
+     ["C01", "C08"], "has-data-not-decided"),
+    ("del-has-data-preset", "core/src/timeline_helpers.rs", "let mut has_frame_data = false;", "let mut has_frame_data = true;",
+     ["C01", "C08"], "has-data-preset"),
+    ("del-none-end-test", "core/src/time_scale.rs", "            Repeat::None if time > self.duration => return self.position_ended(),\n", "",
+     ["C02", "C03", "C07"], "finite-repeat-never-ends"),
+    ("del-reverse-arm", "core/src/time_scale.rs", "            true if cycle_ratio > 0.5 => ((1.0 - cycle_ratio) * 2.0, true),\n", "",
+     ["C03", "C10"], None),
+    ("del-ended-reverse", "core/src/time_scale.rs", "let normalized_time = if self.reverse { 0.0 } else { 1.0 };", "let normalized_time = 1.0;",
+     ["C02", "C03"], "terminal-position-wrong"),
+    ("del-last-frame-case", "core/src/timeline_helpers.rs",
+     "        } else if index_at == self.frames.len() - 1 {\n            Some([frame_at, frame_at])\n        } else {", "        } else {",
+     ["C01", "C02"], "spurious-none"),
+    ("del-clamp", "core/src/timeline_helpers.rs", "let normalized_time = normalized_time.clamp(0.0, 1.0);", "", ["C01"], "position-not-clamped"),
+    ("del-merged-start-with", "core/src/timeline.rs",
+     "        for timeline in self.timelines.iter_mut() {\n            timeline.start_with(values);\n        }", "        let _ = values;",
+     ["C12", "C10", "C04"], None),
+    ("del-prepare-empty-check", "core/src/timeline.rs", "    if boundary_times.is_empty() {\n        return None;\n    }\n", "", ["C10", "C08"],
+     None),
+    ("del-unanimated-ended", "core/src/animator.rs", "            return true;\n        };\n        self.state_duration",
+     "            return false;\n        };\n        self.state_duration", ["C07"], "no-timeline-not-ended"),
+    ("del-rounding", "core/src/interpolation.rs", "Self::from_f32(result_f32.round())", "Self::from_f32(result_f32)", ["C14"],
+     "integer-lerp-shape"),
+    ("del-reset-state", "bevy/src/animator.rs", "        self.state = AnimationState::None;\n", "", ["C18", "C19"], None),
+    ("del-system-order", "bevy/src/lib.rs", "(chain_animations::<K, T>, select_animation::<K, T>).before(animate::<T>),",
+     "(chain_animations::<K, T>, select_animation::<K, T>),", ["C19"], "system-ordering"),
     ("c20-lerp-difference", "core/src/interpolation.rs", "        self * (1.0 - x) + y1 * x\n", "        self + (y1 - self) * x\n", ["C20"],
      "intermediate-unbounded"),
 ]
